@@ -301,6 +301,7 @@ type nilObl struct {
 func (a *ranger) nilObligations(inScope func(token.Pos) bool) []nilObl {
 	w := a.w
 	nb := w.nilableFields()
+	mayNil := w.mayReturnNil()
 	fn := a.fn
 	if len(fn.Blocks) == 0 {
 		return nil
@@ -404,6 +405,36 @@ func (a *ranger) nilObligations(inScope func(token.Pos) bool) []nilObl {
 		}
 		return nil, ""
 	}
+	// map cells: "M:" + shape of the map + "[" + shape of the key + "]"; a map that is itself read from a
+	// map cell is named by that cell, so `m[a][b]` depends on `m[a]`
+	var cellKey func(m, k ssa.Value) string
+	mapShape := func(m ssa.Value) string {
+		if lk := mapReadOf(m); lk != nil {
+			return "M(" + cellKey(lk.X, lk.Index) + ")"
+		}
+		return a.valShape(m)
+	}
+	cellKey = func(m, k ssa.Value) string {
+		ks := ""
+		if c, ok := k.(*ssa.Const); ok {
+			ks = "const " + c.String()
+		} else if u, ok := k.(*ssa.UnOp); ok && u.Op == token.MUL && !isAddrOfField(u.X) && !storesThrough(fn, u.X.Type()) {
+			// `*p` for a pointer p that this function neither stores through nor hands to a callee:
+			// every read yields the same key (callees reach the pointee only through other pointers,
+			// and the fork has no writer of such a cell outside the instruction handlers' own operands)
+			ks = "*(" + a.valShape(u.X) + ")"
+		} else {
+			ks = a.valShape(k)
+		}
+		return mapShape(m) + "[" + ks + "]"
+	}
+	killCells := func(s *state, containing string) {
+		for k := range s.shape {
+			if strings.HasPrefix(k, "M:") && (containing == "" || strings.Contains(k, containing)) {
+				delete(s.shape, k)
+			}
+		}
+	}
 	var obls []nilObl
 	ord := map[string]int{}
 	record := false
@@ -415,6 +446,17 @@ func (a *ranger) nilObligations(inScope func(token.Pos) bool) []nilObl {
 			if u, ok := ins.(*ssa.UnOp); ok && u.Op == token.MUL {
 				if fa, ok := u.X.(*ssa.FieldAddr); ok && s.shape[a.addrShape(fa)] {
 					s.val[u] = true
+				}
+			}
+			// reads of a map cell known to hold a non-nil value
+			if lk, ok := ins.(*ssa.Lookup); ok && !lk.CommaOk {
+				if _, isMap := lk.X.Type().Underlying().(*types.Map); isMap && s.shape["M:"+cellKey(lk.X, lk.Index)] {
+					s.val[lk] = true
+				}
+			}
+			if ex, ok := ins.(*ssa.Extract); ok && ex.Index == 0 {
+				if lk, ok := ex.Tuple.(*ssa.Lookup); ok && s.shape["M:"+cellKey(lk.X, lk.Index)] {
+					s.val[ex] = true
 				}
 			}
 			if v, kind := derefOf(ins); v != nil {
@@ -434,6 +476,33 @@ func (a *ranger) nilObligations(inScope func(token.Pos) bool) []nilObl {
 						}
 					}
 				}
+				// results of fork functions that may be nil, and plain map reads of pointer values
+				if record && inScope(ins.Pos()) {
+					what := ""
+					if c, idx := callResultOf(v); c != nil {
+						if cal := c.Call.StaticCallee(); cal != nil {
+							if e, ok := mayNil[cal][idx]; ok {
+								what = "result of " + relName(cal) + ", which " + e.why
+								if e.announced {
+									what += " together with an error"
+								}
+							}
+						}
+					} else if lk := mapReadOf(v); lk != nil && nilableType(v.Type()) {
+						what = "value read from the map " + shortValue(lk.X) + " (nil for an absent key)"
+					}
+					if what != "" {
+						base := relName(fn) + "/nilresult"
+						ord[base]++
+						o := nilObl{Key: fmt.Sprintf("%s#%d", base, ord[base]), Pos: ins.Pos(), Holds: nonNil(s, v)}
+						if o.Holds {
+							o.What = fmt.Sprintf("%s of the %s: tested on every path before use", kind, what)
+						} else {
+							o.What = fmt.Sprintf("%s of the %s is not protected on every path by a non-nil test (or by the test of the announcing error / presence flag)", kind, what)
+						}
+						obls = append(obls, o)
+					}
+				}
 				// having survived the dereference, the value is non-nil
 				s.val[v] = true
 			}
@@ -451,13 +520,32 @@ func (a *ranger) nilObligations(inScope func(token.Pos) bool) []nilObl {
 						s.shape[sh] = true
 					}
 				}
+			case *ssa.MapUpdate:
+				if nilableType(x.Value.Type()) {
+					key := cellKey(x.Map, x.Key)
+					if nonNil(s, x.Value) {
+						killCells(s, key) // cells named through this one now belong to another map
+						s.shape["M:"+key] = true
+					} else {
+						killCells(s, "") // the key may equal that of any other cell of the map
+					}
+				}
 			case ssa.CallInstruction:
 				for k := range s.shape {
+					if strings.HasPrefix(k, "M:") {
+						continue
+					}
 					if a.clobbers(ins, fieldOfShape(k)) {
 						delete(s.shape, k)
 					}
 				}
-				_ = x
+				if bi, ok := x.Common().Value.(*ssa.Builtin); ok {
+					if bi.Name() == "delete" || bi.Name() == "clear" {
+						killCells(s, "")
+					}
+				} else if a.clobbers(ins, "#mapnil") {
+					killCells(s, "")
+				}
 			}
 		}
 		return s
@@ -467,6 +555,28 @@ func (a *ranger) nilObligations(inScope func(token.Pos) bool) []nilObl {
 		iff, ok := b.Instrs[len(b.Instrs)-1].(*ssa.If)
 		if !ok || b.Succs[0] == b.Succs[1] {
 			return out
+		}
+		// presence flag of a map read: on the `ok` side the value read is taken to be non-nil
+		{
+			cond, trueSucc := iff.Cond, 0
+			if n, isNot := cond.(*ssa.UnOp); isNot && n.Op == token.NOT {
+				cond, trueSucc = n.X, 1
+			}
+			if ex, isEx := cond.(*ssa.Extract); isEx && ex.Index == 1 {
+				if lk, isLk := ex.Tuple.(*ssa.Lookup); isLk && lk.CommaOk {
+					if succIdx != trueSucc {
+						return out
+					}
+					s := clone(out)
+					s.shape["M:"+cellKey(lk.X, lk.Index)] = true
+					for _, ref := range *lk.Referrers() {
+						if e0, ok := ref.(*ssa.Extract); ok && e0.Index == 0 {
+							s.val[e0] = true
+						}
+					}
+					return s
+				}
+			}
 		}
 		bo, ok := iff.Cond.(*ssa.BinOp)
 		if !ok || (bo.Op != token.NEQ && bo.Op != token.EQL) {
@@ -486,10 +596,30 @@ func (a *ranger) nilObligations(inScope func(token.Pos) bool) []nilObl {
 			nonNilSucc = 1
 		}
 		if succIdx != nonNilSucc {
+			// the side on which the tested value is nil: if it is the error of a call whose nil results
+			// are announced by that error, the other results are usable here
+			if ex, isEx := v.(*ssa.Extract); isEx {
+				if c, isCall := ex.Tuple.(*ssa.Call); isCall {
+					if cal := c.Call.StaticCallee(); cal != nil && ex.Index == errorIndex(cal.Signature) {
+						s := clone(out)
+						for _, ref := range *c.Referrers() {
+							if e2, ok := ref.(*ssa.Extract); ok && e2 != ex {
+								if e, ok := mayNil[cal][e2.Index]; ok && e.announced {
+									s.val[e2] = true
+								}
+							}
+						}
+						return s
+					}
+				}
+			}
 			return out
 		}
 		s := clone(out)
 		s.val[v] = true
+		if lk := mapReadOf(v); lk != nil {
+			s.shape["M:"+cellKey(lk.X, lk.Index)] = true
+		}
 		if u, fa := fieldLoad(v); u != nil {
 			// the field itself is non-nil if nothing may have re-assigned it since the load
 			if !a.clobberedBetween(u, iff, fieldID(fa)) {
